@@ -714,6 +714,12 @@ pub fn execute_buy_listing(
     // Mutable response
     let mut res = Response::<cosmwasm_std::Empty>::new();
 
+    // A Bucket received from an earlier sale still owes that sale's Community Pool fee,
+    // pay it now since fee_amount is overwritten below
+    if let Some(owed_fee) = &the_bucket.fee_amount {
+        res = res.add_message(owed_fee.get_cp_msg(env.contract.address.clone())?);
+    }
+
     // Royalty Registry address
     let Some(royalty_reg): Option<Addr> = ROYALTY_REGISTRY.load(deps.storage)? else {
         // probably assert here
